@@ -55,24 +55,49 @@ static const unsigned BIT_FLAGS = 1, BIT_LOCKQ = 7;
 static const unsigned SETTABLE[14] = {0, 1, 2, 3, 5, 6, 7, 11, 12, 14, 15, 17, 18, 19};
 static const uint8_t FLAG_FCS = 0x10, FLAG_FAILED_FCS = 0x40;
 
-struct Model {
+// A further present word of a parsed header (bit 31 of the word before it), as written by mac80211 for per-chain signal and
+// antenna: bit 29 of the word before it says that its bits are numbered from 0 again (radiotap namespace). The setters of
+// libtins only ever touch the first word; the fields of the further words must keep their values, their order and their
+// natural alignment, and a getter reports the first occurrence of its field.
+struct ExtWord {
     uint32_t present = 0;
     Bytes val[NFIELDS];
     bool has(unsigned b) const { return (present >> b) & 1; }
+};
+static const uint32_t BIT_NS = 1u << 29, BIT_EXT = 1u << 31;
+
+struct Model {
+    uint32_t present = 0;
+    Bytes val[NFIELDS];
+    std::vector<ExtWord> ext;
+    bool has(unsigned b) const { return (present >> b) & 1; }
     void set(unsigned b, const Bytes& v) { present |= 1u << b; val[b] = v; }
+    const Bytes* first(unsigned b) const {  // first occurrence of the field in any present word
+        if (has(b)) return &val[b];
+        for (const ExtWord& w : ext) if (w.has(b)) return &w.val[b];
+        return nullptr;
+    }
+    uint32_t word(size_t k) const {  // present word k as it appears on the wire
+        uint32_t w = k == 0 ? present : ext[k - 1].present;
+        if (k < ext.size()) w |= BIT_NS | BIT_EXT;
+        return w;
+    }
+    uint32_t all_fields() const { uint32_t w = present; for (const ExtWord& e : ext) w |= e.present; return w; }
 };
 
 struct Layout {
-    Bytes header;               // complete RadioTap header: version, pad, it_len, present word, fields
-    int off[NFIELDS];           // offset of every present field from the start of the header, -1 if absent
+    Bytes header;               // complete RadioTap header: version, pad, it_len, present words, fields
+    int off[NFIELDS];           // offset of every field of the first word from the start of the header, -1 if absent
     int pad[NFIELDS];           // padding bytes in front of the field
+    std::vector<std::vector<int> > ext_off;  // the same for the fields of the further words
 };
 
 // canonical layout: fields in bit order, each at the next offset that is a multiple of its alignment
 static Layout ref_layout(const Model& m) {
     Layout l;
-    l.header.assign(8, 0);
-    for (unsigned i = 0; i < 4; ++i) l.header[4 + i] = (uint8_t)(m.present >> (8 * i));
+    l.header.assign(8 + 4 * m.ext.size(), 0);
+    for (size_t k = 0; k <= m.ext.size(); ++k)
+        for (unsigned i = 0; i < 4; ++i) l.header[4 + 4 * k + i] = (uint8_t)(m.word(k) >> (8 * i));
     for (unsigned b = 0; b < NFIELDS; ++b) {
         l.off[b] = -1;
         l.pad[b] = 0;
@@ -84,6 +109,18 @@ static Layout ref_layout(const Model& m) {
         l.header.resize(padded, 0);
         l.off[b] = (int)padded;
         l.header.insert(l.header.end(), m.val[b].begin(), m.val[b].end());
+    }
+    for (const ExtWord& w : m.ext) {
+        std::vector<int> offs(NFIELDS, -1);
+        for (unsigned b = 0; b < NFIELDS; ++b) {
+            if (!w.has(b)) continue;
+            size_t a = FIELDS[b].align;
+            size_t padded = (l.header.size() + a - 1) / a * a;
+            l.header.resize(padded, 0);
+            offs[b] = (int)padded;
+            l.header.insert(l.header.end(), w.val[b].begin(), w.val[b].end());
+        }
+        l.ext_off.push_back(offs);
     }
     l.header[2] = (uint8_t)(l.header.size() & 0xff);
     l.header[3] = (uint8_t)(l.header.size() >> 8);
@@ -213,6 +250,16 @@ static std::string describe(const Model& m) {
         first = false;
     }
     os << "}";
+    for (const ExtWord& w : m.ext) {
+        os << "+{";
+        first = true;
+        for (unsigned b = 0; b < NFIELDS; ++b) {
+            if (!w.has(b)) continue;
+            os << (first ? "" : " ") << FIELDS[b].name << "=" << hex(w.val[b]);
+            first = false;
+        }
+        os << "}";
+    }
     return os.str();
 }
 
@@ -224,7 +271,8 @@ static std::string describe(const Model& m) {
 static void check_state(Ctx& ctx, const std::string& pfx, const RadioTap& rt, const Model& m, const Where& where, bool unset_too) {
     for (unsigned g = 0; g < 15; ++g) {
         const GetterDef& gd = GETTERS[g];
-        if (!unset_too && !m.has(gd.bit)) continue;
+        const Bytes* mv = m.first(gd.bit);
+        if (!unset_too && !mv) continue;
         std::string sig = pfx + "getter:" + gd.name;
         bool threw_np = false;
         Bytes got;
@@ -236,11 +284,11 @@ static void check_state(Ctx& ctx, const std::string& pfx, const RadioTap& rt, co
             VFAIL(ctx, sig + ":threw", where << ": getter " << gd.name << "() threw '" << e.what() << "'; model " << describe(m)
                                               << " payload " << hex(rt.options_payload()));
         }
-        if (m.has(gd.bit)) {
+        if (mv) {
             VCHECK(ctx, !threw_np, sig + ":set-field-not-present", where << ": " << gd.name << "() reports field_not_present; model " << describe(m)
                                                                           << " payload " << hex(rt.options_payload()));
             if (threw_np) continue;
-            Bytes want(m.val[gd.bit].begin() + gd.off, m.val[gd.bit].begin() + gd.off + gd.len);
+            Bytes want(mv->begin() + gd.off, mv->begin() + gd.off + gd.len);
             VCHECK(ctx, got == want, sig + ":value", where << ": " << gd.name << "() = " << hex(got) << " (LE) expected " << hex(want) << "; model "
                                                            << describe(m) << " payload " << hex(rt.options_payload()));
         } else {
@@ -249,22 +297,40 @@ static void check_state(Ctx& ctx, const std::string& pfx, const RadioTap& rt, co
         }
     }
     uint32_t pres = (uint32_t)rt.present();
-    VCHECK(ctx, pres == m.present, pfx + "present", where << ": present() = 0x" << std::hex << pres << " expected 0x" << m.present << std::dec << "; model "
-                                                          << describe(m));
+    if (m.ext.empty()) {
+        VCHECK(ctx, pres == m.present, pfx + "present", where << ": present() = 0x" << std::hex << pres << " expected 0x" << m.present << std::dec << "; model "
+                                                              << describe(m));
+    } else {
+        // several present words: present() is documented as "the bit mask of the present fields"; the field bits must be
+        // the union of the words (what bits 29..31 read as is not specified)
+        VCHECK(ctx, (pres & 0x1fffffffu) == m.all_fields(), pfx + "present", where << ": present() = 0x" << std::hex << pres << " expected field bits 0x" << m.all_fields()
+                                                                                   << std::dec << "; model " << describe(m));
+    }
     Layout l = ref_layout(m);
     const RadioTap::options_payload_type& pl = rt.options_payload();
     Bytes want(l.header.begin() + 4, l.header.end());
     VCHECK(ctx, pl.size() == want.size(), pfx + "layout:length", where << ": options_payload has " << pl.size() << " bytes, canonical layout has " << want.size()
                                                                         << "; got " << hex(pl) << " expected " << hex(want) << " model " << describe(m));
     if (pl.size() != want.size()) return;
-    VCHECK(ctx, std::equal(pl.begin(), pl.begin() + 4, want.begin()), pfx + "layout:present-word", where << ": present word " << hex(pl.data(), 4) << " expected "
-                                                                                                         << hex(want.data(), 4));
+    const size_t nwords = 4 * (1 + m.ext.size());
+    VCHECK(ctx, std::equal(pl.begin(), pl.begin() + nwords, want.begin()), pfx + "layout:present-word", where << ": present word(s) " << hex(pl.data(), nwords) << " expected "
+                                                                                                              << hex(want.data(), nwords));
     for (unsigned b = 0; b < NFIELDS; ++b) {
         if (!m.has(b)) continue;
         size_t o = (size_t)l.off[b] - 4;
         bool same = std::equal(m.val[b].begin(), m.val[b].end(), pl.begin() + o);
         VCHECK(ctx, same, pfx + "layout:field-bytes", where << ": field " << FIELDS[b].name << " expected at header offset " << l.off[b] << " with bytes "
                                                             << hex(m.val[b]) << "; options_payload " << hex(pl) << " canonical " << hex(want));
+    }
+    for (size_t k = 0; k < m.ext.size(); ++k) {
+        for (unsigned b = 0; b < NFIELDS; ++b) {
+            if (!m.ext[k].has(b)) continue;
+            size_t o = (size_t)l.ext_off[k][b] - 4;
+            bool same = std::equal(m.ext[k].val[b].begin(), m.ext[k].val[b].end(), pl.begin() + o);
+            VCHECK(ctx, same, pfx + "layout:ext-field-bytes", where << ": field " << FIELDS[b].name << " of present word " << k + 1 << " expected at header offset "
+                                                                    << l.ext_off[k][b] << " with bytes " << hex(m.ext[k].val[b]) << "; options_payload " << hex(pl)
+                                                                    << " canonical " << hex(want));
+        }
     }
     // (the content of alignment padding is not specified by the property and is not compared)
 }
@@ -404,6 +470,22 @@ static void gen_start(Src& s, Ctx& ctx, Case& c) {
         Bytes v = s.bytes(FIELDS[b].size);
         c.start.set(b, v);
     }
+    // further present words (drawn last so that the decoding of the first word is what it was): 1..3 words, each with a
+    // sparse set of fields - per-chain signal/antenna most of the time, any field except FLAGS otherwise
+    if (s.chance(35)) {
+        unsigned nw = 1 + (unsigned)s.range(0, 2);
+        for (unsigned k = 0; k < nw; ++k) {
+            ExtWord w;
+            uint32_t wm = s.chance(60) ? ((1u << 5) | (1u << 11)) : (s.u32() & s.u32() & 0x0ffffd);
+            if (s.chance(15)) wm = 0;  // a word without fields
+            for (unsigned b = 0; b < NFIELDS; ++b) {
+                if (!((wm >> b) & 1)) continue;
+                w.present |= 1u << b;
+                w.val[b] = s.bytes(FIELDS[b].size);
+            }
+            c.start.ext.push_back(w);
+        }
+    }
     if (c.start.has(BIT_FLAGS) && (c.start.val[BIT_FLAGS][0] & FLAG_FCS) && (c.start.val[BIT_FLAGS][0] & FLAG_FAILED_FCS)) {
         // RadioTap(buffer) rejects frames flagged "FCS present + FCS check failed" (malformed_packet, by design)
         c.start.val[BIT_FLAGS][0] &= (uint8_t)~FLAG_FAILED_FCS;
@@ -503,6 +585,11 @@ void prop(Src& s, Ctx& ctx) {
     ctx.hash(c.parsed_start ? 1 : 0);
     ctx.hash(c.start.present);
     for (unsigned b = 0; b < NFIELDS; ++b) if (c.start.has(b)) ctx.hash(hash_bytes(c.start.val[b].data(), c.start.val[b].size()));
+    for (const ExtWord& w : c.start.ext) {
+        ctx.hash(0xe0000000u | w.present);
+        for (unsigned b = 0; b < NFIELDS; ++b) if (w.has(b)) ctx.hash(hash_bytes(w.val[b].data(), w.val[b].size()));
+    }
+    if (!c.start.ext.empty()) ctx.label("start-present-words=" + std::to_string(1 + c.start.ext.size()));
     ctx.hash(c.inner.kind);
     ctx.hash(hash_bytes(c.inner.bytes.data(), c.inner.bytes.size()));
     ctx.hash((c.attach_first ? 1 : 0) | (c.detach ? 2 : 0));
@@ -618,8 +705,16 @@ void prop(Src& s, Ctx& ctx) {
            "serialized size " << ser.size() << " expected header " << hl << " + frame " << inner_len << " + fcs " << (fcs ? 4 : 0) << "; serialized " << hex(ser, 512));
     if (ser.size() == hl + inner_len + (fcs ? 4 : 0)) {
         // header: version/pad/it_len/present word exactly, then every field at its canonical offset
-        VCHECK(ctx, std::equal(ser.begin(), ser.begin() + 8, l.header.begin()), "C11:serialize:header-bytes",
-               "first 8 bytes " << hex(ser.data(), 8) << " expected " << hex(l.header.data(), 8));
+        const size_t fixed = 8 + 4 * m.ext.size();
+        VCHECK(ctx, std::equal(ser.begin(), ser.begin() + fixed, l.header.begin()), "C11:serialize:header-bytes",
+               "first " << fixed << " bytes " << hex(ser.data(), fixed) << " expected " << hex(l.header.data(), fixed));
+        for (size_t k = 0; k < m.ext.size(); ++k)
+            for (unsigned b = 0; b < NFIELDS; ++b) {
+                if (!m.ext[k].has(b)) continue;
+                VCHECK(ctx, std::equal(m.ext[k].val[b].begin(), m.ext[k].val[b].end(), ser.begin() + l.ext_off[k][b]), "C11:serialize:header-bytes",
+                       "field " << FIELDS[b].name << " of present word " << k + 1 << " not at offset " << l.ext_off[k][b] << "; serialized " << hex(ser, 512)
+                                << " canonical header " << hex(l.header));
+            }
         for (unsigned b = 0; b < NFIELDS; ++b) {
             if (!m.has(b)) continue;
             VCHECK(ctx, std::equal(m.val[b].begin(), m.val[b].end(), ser.begin() + l.off[b]), "C11:serialize:header-bytes",
